@@ -15,6 +15,7 @@ import Driver.FamRe
 import Driver.FamAutomaton
 import Driver.FamLoopRange
 import Driver.FamCharPartition
+import Driver.FamLiteral
 
 open Driver
 
@@ -39,6 +40,7 @@ def dispatch (fam op : String) (args : List String) : Option Reply :=
   | "aut" => FamAutomaton.handle op args
   | "lr" => FamLoopRange.handle op args
   | "cp" => FamCharPartition.handle op args
+  | "lit" => FamLiteral.handle op args
   | _ => none
 
 def splitArrow (line : String) : Option (String × String) :=
